@@ -34,6 +34,7 @@ type sysCfg struct {
 	client    bool
 	stopSrc   string // "Engine.Stop", "Stop", "OnTraffic", "OnTick", "OnClose"
 	conns     int
+	flood     bool
 }
 
 func (c *sysCfg) String() string {
@@ -198,6 +199,12 @@ func runPeer(rec *recorder, h *vhandler, sp *peerSpec, addr string, scratch stri
 			}
 		}
 	}()
+	if sp.hold != nil {
+		select {
+		case <-sp.hold:
+		case <-time.After(10 * time.Second):
+		}
+	}
 	// sender
 	sent := 0
 	for _, n := range sp.segs {
@@ -270,6 +277,66 @@ func runPeer(rec *recorder, h *vhandler, sp *peerSpec, addr string, scratch stri
 		_ = c.Close()
 	}
 	rec.emit("PeerDone", "c", sp.id, "sent", sent)
+}
+
+// staleRequests: requests through the handles of connections that are already closed, issued while fresh
+// connections (whose descriptors reuse the old numbers) are open.  They must be no-ops.
+func staleRequests(rec *recorder, h *vhandler, cfg *sysCfg, rng *vsup.Rng, dial, scratch string, rep *vsup.Report) {
+	var old []*vconn
+	h.conns.Range(func(_, v any) bool {
+		old = append(old, v.(*vconn))
+		return true
+	})
+	if len(old) == 0 {
+		return
+	}
+	before := atomic.LoadInt32(&h.opened)
+	hold := make(chan struct{})
+	var wg sync.WaitGroup
+	fresh := 3
+	for i := 0; i < fresh; i++ {
+		sp := &peerSpec{id: 100 + i, seed: rng.Uint64(), network: cfg.network, done: make(chan struct{}), hold: hold,
+			total: 2000, segs: []int{700, 1300}, shut: "fin", peerRead: "normal", consume: "mixed", reply: "frames", openOut: -1, closeAt: -1, closeHow: "action"}
+		wg.Add(1)
+		go func() {
+			defer wg.Done()
+			runPeer(rec, h, sp, dial, scratch, rep)
+		}()
+	}
+	deadline := time.Now().Add(5 * time.Second)
+	for atomic.LoadInt32(&h.opened) < before+int32(fresh) && time.Now().Before(deadline) {
+		time.Sleep(time.Millisecond)
+	}
+	for _, vc := range old {
+		sp := vc.spec
+		for _, kind := range []string{"Wake", "CloseCb", "Close", "AsyncWrite"} {
+			a := h.newReq()
+			h.rec.emit("AIssue", "a", a, "c", sp.id, "kind", kind, "w", 99, "k", 0, "len", 0, "g", vsup.Goid())
+			cb := func(c Conn, err error) error {
+				h.rec.emit("ACb", "a", a, "c", sp.id, "err", errClass(err), "g", vsup.Goid())
+				atomic.AddInt32(&h.pendingCb, -1)
+				return nil
+			}
+			var err error
+			switch kind {
+			case "Wake":
+				err = vc.c.Wake(cb)
+			case "CloseCb":
+				err = vc.c.CloseWithCallback(cb)
+			case "Close":
+				err = vc.c.Close()
+				h.rec.emit("ANoCb", "a", a)
+			case "AsyncWrite":
+				err = vc.c.AsyncWrite([]byte("stale"), cb)
+			}
+			h.rec.emit("AIssued", "a", a, "err", errClass(err))
+			if err == nil && kind != "Close" {
+				atomic.AddInt32(&h.pendingCb, 1)
+			}
+		}
+	}
+	close(hold)
+	wg.Wait()
 }
 
 // queues samples the server socket's unsent bytes (SIOCOUTQ) and the peer socket's unread bytes (FIONREAD).
@@ -426,6 +493,14 @@ func runServerScenario(t *testing.T, rec *recorder, cfg *sysCfg, seed uint64, sc
 		if cfg.network == "unix" && specs[i].shut == "rst" {
 			specs[i].shut = "close"
 		}
+		if i == 0 && cfg.flood {
+			// one connection with a flood of asynchronous writes issued while its loop is held in a callback
+			sp := specs[i]
+			sp.total, sp.segs, sp.lockstep = 10, []int{10}, false
+			sp.shut, sp.peerRead, sp.consume, sp.reply = "fin", "normal", "all", "frames"
+			sp.closeAt, sp.openOut, sp.wakes = -1, -1, 0
+			sp.asyncW, sp.asyncN, sp.flood = 1+rng.Intn(2), 1100+rng.Intn(300), true
+		}
 		wg.Add(1)
 		go func(sp *peerSpec) {
 			defer wg.Done()
@@ -444,6 +519,7 @@ func runServerScenario(t *testing.T, rec *recorder, cfg *sysCfg, seed uint64, sc
 		rep.Violation("sys/peers-stuck", "peers did not finish within 60 s: "+cfg.String(), nil)
 	}
 	h.asyncWG.Wait()
+	staleRequests(rec, h, cfg, rng, dial, scratch, rep)
 	// quiescence: every connection the peers ended must have been closed by now (or soon)
 	deadline := time.Now().Add(5 * time.Second)
 	for (atomic.LoadInt32(&h.closedN) < atomic.LoadInt32(&h.opened) || atomic.LoadInt32(&h.pendingCb) > 0) && time.Now().Before(deadline) {
@@ -475,7 +551,7 @@ func runServerScenario(t *testing.T, rec *recorder, cfg *sysCfg, seed uint64, sc
 	time.Sleep(30 * time.Millisecond)
 	close(stopCanary)
 	cwg.Wait()
-	h.closeUserDups()
+	h.closeDups(true)
 	leaked, what := leakedSince(baseFds)
 	if leaked > 0 { // sockets of peers that are still being torn down by the Go runtime: look again
 		time.Sleep(100 * time.Millisecond)
@@ -512,6 +588,7 @@ func sysConfigs(rng *vsup.Rng, thorough bool) []*sysCfg {
 				cfg.ticker = true
 			}
 			cfg.name = fmt.Sprintf("%s-%s", network, mode)
+			cfg.flood = (network == "tcp" && mode == "ET") || (network == "unix" && mode == "LT") || rng.Intn(4) == 0
 			out = append(out, cfg)
 		}
 	}
